@@ -41,7 +41,7 @@ var c10Dict = map[string][]string{
 	"linkheader": {"<", ">", ";", ", ", ",", "=", "\"", " rel=", "rel=\"next\"", "; rel", "<http://example.org/", "<//", "<../", " ", "\t", "%zz", "\\", "\x7f", "\xff", "é"},
 	"reddit": {"{", "}", "[", "]", "\"", ":", ",", "null", "\"data\":", "\"children\":", "\"permalink\":", "\"kind\":", "\"preview\":", "\"images\":", "\"secure_media\":", "\"reddit_video\":", "\"after\":", "\"dist\":", "\"edited\":", "\"created\":",
 		"1e999", "-1", "true", "\"\"", "{}", "[]", "\\u0000", "\\ud800", "/r/", "%zz", "amp;", "\x00", "\xff"},
-	"truthsocial": {"{", "}", "[", "]", "\"", ":", ",", "null", "\"id\":", "\"created_at\":", "\"account\":", "\"media_attachments\":", "\"external_video_id\":", "\"meta\":", "\"original\":", "\"mentions\":", "\"card\":", "\"url\":",
+	"truthsocial": {"{", "}", "[", "]", "\"", ":", ",", "null", "\"id\":", "\"created_at\":", "\"account\":", "\"media_attachments\":", "\"external_video_id\":", "\"reblog\":", "\"quote\":", "\"in_reply_to\":", "\"meta\":", "\"original\":", "\"mentions\":", "\"card\":", "\"url\":",
 		"\"2024-05-01T12:34:56.789Z\"", "\"0000-00-00\"", "1e999", "-1", "true", "\"\"", "{}", "[]", "\\u0000", "../", "<html>", "<script type=\"application/json\">", "</script>", "<img src=", "\x00", "\xff"},
 	"ina": {"{", "}", "[", "]", "\"", ":", ",", "null", "\"dateOfBroadcast\":", "\"resourceUrl\":", "\"resourceThumbnail\":", "\"embedUrl\":", "\"uri\":", "\"credits\":", "\"@context\":", "\"attributes\":", "\"duration\":", "\"categories\":",
 		"\"1969-07-21T00:00:00+02:00\"", "\"21/07/1969\"", "1e999", "-1", "true", "\"\"", "{}", "[]", "\\u0000", "<img src=", "<script>", "\x00", "\xff"},
@@ -58,7 +58,7 @@ var c10Nest = map[string][][2]string{
 	"script":      {{"{", "}"}, {"{\"a\":", "}"}, {"[", "]"}, {"=", ""}},
 	"linkheader":  {{"<", ">"}, {"<u>; a=\"", "\", "}, {";", "=", }},
 	"reddit":      {{"[", "]"}, {"{\"data\":{\"children\":[", "]}}"}, {"{\"a\":", "}"}},
-	"truthsocial": {{"[", "]"}, {"{\"card\":", "}"}, {"{\"media_attachments\":[", "]}"}, {"<div>", "</div>"}},
+	"truthsocial": {{"[", "]"}, {"{\"card\":", "}"}, {"{\"media_attachments\":[", "]}"}, {"{\"reblog\":{\"media_attachments\":[", "]}}"}, {"{\"quote\":", "}"}, {"<div>", "</div>"}},
 	"ina":         {{"[", "]"}, {"{\"credits\":[", "]}"}, {"{\"a\":", "}"}},
 }
 
